@@ -768,6 +768,8 @@ func (v *vdrRun) loop() {
 	for len(r.Events) < r.Opts.MaxEvents {
 		if r.Opts.CrashAt != nil && r.Opts.CrashAt[len(r.Events)] {
 			delete(r.Opts.CrashAt, len(r.Events))
+			// storage goroutines of the mrp that is about to die belong to its lifetime
+			time.Sleep(3 * time.Millisecond)
 			r.ps.VerifStorageBarrier()
 			v.observe(false)
 			if err := r.Crash(); err != nil {
